@@ -282,8 +282,21 @@ func (m *xdsResourceManager) UpdateResource(rt xdsresource.ResourceType, up map[
 	// should update xds updater first, as it may affect the traffic when the
 	// policy is updated at the first time.
 	if handlers, ok := m.xdsHandlers[rt]; ok {
+		view := up
+		if !rt.RequireFullADSResponse() {
+			// a response of this type may carry only part of the resources: the handlers are
+			// given the resources that will be in force, not only the ones in this response,
+			// as they derive (and prune) their policies from the map they receive.
+			view = make(map[string]xdsresource.Resource, len(m.cache[rt])+len(up))
+			for name, res := range m.cache[rt] {
+				view[name] = res
+			}
+			for name, res := range up {
+				view[name] = res
+			}
+		}
 		for _, handler := range handlers {
-			handler(up)
+			handler(view)
 		}
 	}
 
